@@ -24,8 +24,8 @@ theorem is_match_eq (c : Comp) (name : String) (flt : Strata) : Compartment.is_m
 theorem has_stratum_eq (c : Comp) (k v : String) : Compartment.has_stratum c k v = c.hasStratum k v := rfl
 
 theorem has_name_in_list_eq {α : Type} (c : Comp) (s : Strat α) :
-    Compartment.has_name_in_list c (Py.stratCompartments s) = c.hasNameIn s.comps := by
-  unfold Compartment.has_name_in_list Compartment.has_name_comp Py.stratCompartments Comp.hasNameIn
+    Compartment.has_name_in_list_comps c (Py.stratCompartments s) = c.hasNameIn s.comps := by
+  unfold Compartment.has_name_in_list_comps Compartment.has_name_comp Py.stratCompartments Comp.hasNameIn
   rw [List.any_map]
   induction s.comps with
   | nil => rfl
